@@ -68,7 +68,7 @@ func refStep(c *verifCfg, op *concOp, has bool, cur []byte) (match bool, nhas bo
 	}
 	// an update that got as far as signing but failed to store: a storage error with no effect
 	if op.kind == kOther && op.didSign {
-		return true, has, cur
+		return op.out == nil, has, cur // and it must not hand out the cosignature it failed to store
 	}
 	v := rt.Valid(op.nextRaw, c.origins[li], c.keys[li], nil)
 	vp := rt.Valid(cur, c.origins[li], c.keys[li], nil)
